@@ -398,11 +398,10 @@ func baseSetFEnv(L *LState) int {
 }
 
 func baseSetMetatable(L *LState) int {
+	// Lua 5.1: only a table's metatable can be changed from Lua (luaL_checktype(L, 1, LUA_TTABLE))
+	L.CheckTable(1)
 	L.CheckTypes(2, LTNil, LTTable)
 	obj := L.Get(1)
-	if obj == LNil {
-		L.RaiseError("cannot set metatable to a nil object.")
-	}
 	mt := L.Get(2)
 	if m := L.metatable(obj, true); m != LNil {
 		if tb, ok := m.(*LTable); ok && tb.RawGetString("__metatable") != LNil {
